@@ -1,4 +1,4 @@
-import PeptVerif.Lemmas.ParserSurface
+import PeptVerif.Lemmas.ParserAst
 /-!
 # C01 — ProForma text ⇄ annotation are faithful inverses (property theorems)
 
@@ -173,6 +173,76 @@ example : surfaceDenote exampleItems { seq := "PEP".toList, charge := some 2 } =
     { seq := "PEP".toList, charge := some 2, nterm := some [⟨.int 2, 1⟩, ⟨.int 7, 3⟩],
       isotope := some [⟨.str "13C".toList, 1⟩], static := some [⟨.str "[+57.02]@C".toList, 1⟩],
       labile := some [⟨.str "Glycan:Hex".toList, 2⟩], unknown := some [⟨.flt "1.5".toList, 1⟩] } := by decide +kernel
+
+/-! ## 4. every grammar-derivable string: surface syntax tree ↦ text ↦ parse = denotation -/
+
+/-- **Parsing a ProForma string yields exactly what the notation denotes.** For every well-formed surface-syntax tree
+`t` (Spec/ProForma.lean: leading sections in any order and multiplicity, residues with modifications, ambiguity
+intervals with modifications, C-terminal block, charge with optional explicit `+` and adduct list, 1 or more chains joined
+by `+` or `//`, every modification written with ANY text between its brackets and an optional `^n`), parsing the text of
+`t` gives `denote t`: modification values `convert_type(text)` with their multipliers at the position the tree says, the
+interval bounds counted in residues, the connection flags of the joiners. -/
+theorem parse_render (t : SText) (hw : t.wf = true) : parse true t.render = .ok t.denote := by
+  obtain ⟨c, l⟩ := t
+  simp only [SText.wf, Bool.and_eq_true] at hw
+  have hchain := parseChains_stext c l hw.1 hw.2 none
+  have htext : SText.render ⟨c, l⟩ = c.render ++ restText l := rfl
+  rw [htext]
+  cases l with
+  | nil =>
+    simp only [stextResult] at hchain
+    have hr : c.render ++ restText [] = c.render := by simp [restText]
+    rw [hr] at hchain ⊢
+    simp only [SText.denote]
+    unfold parse
+    split
+    · rename_i hun
+      have := parseChains_allAA none c.render hun (schain_render_ne_nil c hw.1)
+      rw [hchain] at this
+      simp only [Except.ok.injEq, List.cons.injEq, Prod.mk.injEq, and_true] at this
+      rw [← this]
+    · rw [hchain]
+  | cons p t' =>
+    unfold parse
+    rw [stext_not_unmodified]
+    simp only [Bool.false_eq_true, ↓reduceIte]
+    rw [hchain]
+    have h1 := stextResult_fst none c (p :: t')
+    have h2 := stextResult_snd none c (p :: t')
+    cases hr : stextResult none c (p :: t') with
+    | nil => exact absurd hr (stextResult_ne_nil _ _ _)
+    | cons a b =>
+      cases b with
+      | nil =>
+        rw [hr] at h1
+        simp at h1
+      | cons a2 b2 =>
+        rw [hr] at h1 h2
+        simp only [SText.denote]
+        rw [h1, h2]
+
+/-- non-vacuity: `[+2]-<13C><[+57.02]@C>{Glycan:Hex}^2[1.50]?(?P[Formula:[13C2]H4]E)[+1.0]^3P-[Oxidation]/+2[+2Na+,+H+]//K[-1]` -/
+def exampleTree : SText :=
+  { first :=
+      { start := [.nterm [⟨"+2".toList, none⟩], .globals [⟨"13C".toList, none⟩, ⟨"[+57.02]@C".toList, none⟩],
+                  .labile ⟨"Glycan:Hex".toList, some 2⟩, .unknown [⟨"1.50".toList, none⟩]],
+        segs := [.group true [⟨'P', [⟨"Formula:[13C2]H4".toList, none⟩]⟩, ⟨'E', []⟩] [⟨"+1.0".toList, some 3⟩],
+                 .res ⟨'P', []⟩],
+        cterm := [⟨"Oxidation".toList, none⟩],
+        charge := some ⟨2, true, [⟨"+2Na+,+H+".toList, none⟩]⟩ },
+    rest := [(true, { start := [], segs := [.res ⟨'K', [⟨"-1".toList, none⟩]⟩], cterm := [], charge := none })] }
+
+example : exampleTree.wf = true := by decide +kernel
+example : exampleTree.render =
+    "[+2]-<13C><[+57.02]@C>{Glycan:Hex}^2[1.50]?(?P[Formula:[13C2]H4]E)[+1.0]^3P-[Oxidation]/+2[+2Na+,+H+]//K[-1]".toList := by
+  decide +kernel
+example : exampleTree.denote = .multi
+    [{ seq := "PEP".toList, nterm := some [⟨.int 2, 1⟩], isotope := some [⟨.str "13C".toList, 1⟩],
+       static := some [⟨.str "[+57.02]@C".toList, 1⟩], labile := some [⟨.str "Glycan:Hex".toList, 2⟩],
+       unknown := some [⟨.flt "1.5".toList, 1⟩], internal := some [(0, [⟨.str "Formula:[13C2]H4".toList, 1⟩])],
+       intervals := some [⟨0, 2, true, some [⟨.flt "1.0".toList, 3⟩]⟩], cterm := some [⟨.str "Oxidation".toList, 1⟩],
+       charge := some 2, adducts := some [⟨.str "+2Na+,+H+".toList, 1⟩] },
+     { seq := "K".toList, internal := some [(0, [⟨.int (-1), 1⟩])] }] [some true] := by decide +kernel
 
 /-- **Serializing is a fixpoint after one round trip** (corollary): `serialize(parse(serialize(a))) == serialize(a)`. -/
 theorem serialize_fixpoint (plus : Plus) (a : Annotation) (hc : canon a = true) :
